@@ -30,7 +30,7 @@ NoRow == [k |-> 0, v |-> 0, m |-> FALSE]            \* empty slot
 
 VARIABLES row,    \* [Rid -> [k, v, m]]   heap slots (m = delete mark)
           idx,    \* set of <<key, rid>>  index entries
-          sh, ex, \* lock tables
+          sh, ex, \* lock tables: sh[r] = shared holders in the order they were granted (the code keeps a list), ex[r] = exclusive holder
           st,     \* [Txn -> "idle" | "active" | "done"]
           ws,     \* [Txn -> Seq of undo records [ty, rid, k, v]]
           n,      \* [Txn -> statements executed]
@@ -45,7 +45,7 @@ vars == <<row, idx, sh, ex, st, ws, n, nv, db, pend, reads, overw, owner, order,
 InitRows == [r \in Rid |-> IF r <= Cardinality(Key) THEN [k |-> r, v |-> r, m |-> FALSE] ELSE NoRow]
 Init == /\ row = InitRows
         /\ idx = {<<r, r>> : r \in 1..Cardinality(Key)}
-        /\ sh = [r \in Rid |-> {}] /\ ex = [r \in Rid |-> "none"]
+        /\ sh = [r \in Rid |-> <<>>] /\ ex = [r \in Rid |-> "none"]
         /\ st = [t \in Txn |-> "idle"] /\ ws = [t \in Txn |-> <<>>] /\ n = [t \in Txn |-> 0]
         /\ nv = Cardinality(Key) + 1
         /\ db = {<<r, r>> : r \in 1..Cardinality(Key)}
@@ -64,10 +64,11 @@ View(t) == ApplySeq(db, pend[t])
 OwnVersions(t) == {pend[t][i].v : i \in DOMAIN pend[t]}
 
 (* ---- locks (lock_manager.go, no wait) ------------------------------------------------------- *)
+ShSet(r) == {sh[r][i] : i \in DOMAIN sh[r]}
 CanS(t, r) == ex[r] \in {"none", t}
-CanX(t, r) == ex[r] = t \/ (ex[r] = "none" /\ sh[r] \subseteq {t})
-LockS(t, R) == [r \in Rid |-> IF r \in R /\ ex[r] # t THEN sh[r] \cup {t} ELSE sh[r]]
-Release(t) == /\ sh' = [r \in Rid |-> sh[r] \ {t}] /\ ex' = [r \in Rid |-> IF ex[r] = t THEN "none" ELSE ex[r]]
+CanX(t, r) == ex[r] = t \/ (ex[r] = "none" /\ ShSet(r) \subseteq {t})
+LockS(t, R) == [r \in Rid |-> IF r \in R /\ ex[r] # t /\ t \notin ShSet(r) THEN Append(sh[r], t) ELSE sh[r]]
+Release(t) == /\ sh' = [r \in Rid |-> SelectSeq(sh[r], LAMBDA x : x # t)] /\ ex' = [r \in Rid |-> IF ex[r] = t THEN "none" ELSE ex[r]]
 
 Active(t) == st[t] = "active" /\ n[t] < MaxStmt
 AbortNow(t) ==   \* statement could not get a lock: the transaction is rolled back (undo last-to-first), locks released
@@ -156,6 +157,8 @@ Update(t, k, k2) ==    \* k2 = k: in-place value update; k2 # k: key-changing up
             /\ UNCHANGED <<st, db, reads, order, bad>>
        ELSE AbortNow(t)
 
+KeyUpdate(t, k) == AllowKupd /\ Update(t, k, k + 20)
+
 Commit(t) ==
   /\ st[t] = "active"
   /\ LET dels == {ws[t][i].rid : i \in {j \in DOMAIN ws[t] : ws[t][j].ty = "del"}}
@@ -171,7 +174,7 @@ Abort(t) == st[t] = "active" /\ AbortNow(t)
 
 Next == \E t \in Txn : \/ Begin(t) \/ Commit(t) \/ Abort(t) \/ SeqRead(t)
                        \/ \E k \in Key : PointRead(t, k) \/ Delete(t, k) \/ Update(t, k, k) \/ Insert(t, k + 10)
-                       \/ (AllowKupd /\ \E k \in Key : Update(t, k, k + 20))
+                       \/ \E k \in Key : KeyUpdate(t, k)
 Spec == Init /\ [][Next]_vars
 
 --------------------------------------------------------------------------------
@@ -188,5 +191,12 @@ Acyclic == ~\E a \in Committed : \E b \in Committed : Edge(a, b) /\ Edge(b, a)  
 Quiescent == \A t \in Txn : st[t] # "active"
 Agree == Quiescent => /\ {<<row[r].k, row[r].v>> : r \in {x \in Rid : row[x].k # 0}} = db
                       /\ idx = {<<row[r].k, r>> : r \in {x \in Rid : row[x].k # 0}}
-LocksFree == Quiescent => \A r \in Rid : sh[r] = {} /\ ex[r] = "none"
+LocksFree == Quiescent => \A r \in Rid : sh[r] = <<>> /\ ex[r] = "none"
+
+(* Walk generation (bin/checks/c04.py): the state without version numbers and ghost bookkeeping.  Every walk of  *)
+(* the graph explored under this view is a behaviour up to the choice of version numbers (MaxVal must not bind). *)
+ShapeView == <<[r \in Rid |-> <<row[r].k, row[r].m>>], idx, sh, ex, st, n,
+               [t \in Txn |-> [i \in DOMAIN ws[t] |-> <<ws[t][i].ty, ws[t][i].rid, ws[t][i].k>>]],
+               [t \in Txn |-> [i \in DOMAIN pend[t] |-> <<pend[t][i].op, pend[t][i].k, pend[t][i].k2>>]],
+               {x[1] : x \in db}>>
 ================================================================================
